@@ -197,15 +197,53 @@ theorem trace_rnum_is_its_token (s : Str) (t : TState) (ht : trace? s = some t) 
     · rw [← erase_readL, writtenJoins_erase, List.getElem?_map, hp]; rfl
     · rw [← ha, ← hb, ← hxa, ← hye, hx.eq_drop, hys.eq_drop]; exact hr
 
+/-- RING-CLOSURE TOKENS ARE NUMBERED IN ORDER OF APPEARANCE AND DO NOT OVERLAP: for `k < k'` the token of entry `k` ends
+    at or before the start of the token of entry `k'` — so entry `k` is THE `k`-th ring-closure token of the string,
+    not merely a token carrying the `k`-th join's number -/
+theorem trace_rnums_in_string_order (s : Str) (t : TState) (ht : trace? s = some t) (i j : Nat) (hij : i < j)
+    (a b a' b' : Nat) (hi : t.rnum i = some (a, b)) (hj : t.rnum j = some (a', b')) : b ≤ a' := by
+  unfold trace? at ht
+  obtain ⟨_, hrt⟩ := trun_atoms s.length _ _ _ ht
+  simp only [TState.init, List.nil_append] at hrt
+  unfold TState.rnum at hi hj
+  rw [hrt, rnumSpans_eq, List.getElem?_map] at hi hj
+  obtain ⟨hbound, hpw⟩ := joinToks_in_order (readL s).1 s.length (runL_desc .needRoot [0] s)
+  cases hp : (joinToks (readL s).1)[i]? with
+  | none => rw [hp] at hi; cases hi
+  | some p =>
+    cases hq : (joinToks (readL s).1)[j]? with
+    | none => rw [hq] at hj; cases hj
+    | some q =>
+      rw [hp] at hi; rw [hq] at hj
+      simp only [Option.map_some, Option.some.injEq, Prod.mk.injEq] at hi hj
+      have hrel : q.2.2.2.1 ≤ p.2.2.2.2 := by
+        have hi' : i < (joinToks (readL s).1).length := by
+          apply Nat.lt_of_not_le; intro hge
+          rw [List.getElem?_eq_none_iff.mpr hge] at hp; cases hp
+        have hj' : j < (joinToks (readL s).1).length := by
+          apply Nat.lt_of_not_le; intro hge
+          rw [List.getElem?_eq_none_iff.mpr hge] at hq; cases hq
+        have := List.pairwise_iff_getElem.mp hpw i j hi' hj' hij
+        rw [List.getElem?_eq_getElem hi'] at hp
+        rw [List.getElem?_eq_getElem hj'] at hq
+        cases hp; cases hq
+        exact this
+      have hqb := hbound q (List.mem_of_getElem? hq)
+      omega
+
 /-- THE LAST CLAUSE OF THE PROPERTY — a build error can be shown at the right place.  If building what was read fails with
     `Rnum(i)` (an unmatched ring-closure digit, C10), then entry `i` of the trace's ring-closure table exists, is a
-    non-empty range inside the string, and the token there reads as a ring number that the string carries an odd number
-    of times: the digit the error is about. -/
+    non-empty range inside the string, and the token there reads as the number `r` of the `i`-th ring-closure digit the
+    reader reported; no later digit carries `r`, and the string carries `r` an odd number of times: the last, unanswered
+    occurrence — the digit the error is about (with `trace_rnums_in_string_order`: the `i`-th ring token of the string). -/
 theorem rnum_error_points_at_its_token (s : Str) (t : TState) (ht : trace? s = some t) (i : Nat)
     (hb : build? (read s).1 = some (.error (.rnum i))) :
-    ∃ a b r, t.rnum i = some (a, b) ∧ a < b ∧ b ≤ s.length ∧ readRnum (s.drop a) = .ok r (s.drop b) ∧
+    ∃ a b bk r, t.rnum i = some (a, b) ∧ a < b ∧ b ≤ s.length ∧ readRnum (s.drop a) = .ok r (s.drop b) ∧
+      (writtenJoins (read s).1)[i]? = some (bk, r) ∧
+      (∀ j, i < j → ((writtenJoins (read s).1)[j]?).map (·.2) ≠ some r) ∧
       countR (read s).1 r % 2 = 1 := by
-  obtain ⟨bk, r, h1, _, h3⟩ := C10.build_rnum_error_is_real _ i hb
+  obtain ⟨bk, r, h1, hlast, h3⟩ := C10.build_rnum_error_is_real _ i hb
+  have h1keep := h1
   have ht0 := ht
   unfold trace? at ht
   obtain ⟨_, hrt⟩ := trun_atoms s.length _ _ _ ht
@@ -223,7 +261,7 @@ theorem rnum_error_points_at_its_token (s : Str) (t : TState) (ht : trace? s = s
     rw [h1'] at h1
     simp only [Option.some.injEq, Prod.mk.injEq] at h1
     obtain ⟨_, rfl⟩ := h1
-    exact ⟨_, _, r', hk, hab, hbs, hr', h3⟩
+    exact ⟨_, _, bk, r', hk, hab, hbs, hr', h1keep, hlast, h3⟩
 
 theorem replay_count : ∀ (es : List Event) (st : List Nat) (n : Nat), (Spec.replay st n es).2 = n + (writtenAtoms es).length
   | [], _, _ => by simp [Spec.replay, writtenAtoms]
@@ -233,12 +271,14 @@ theorem replay_count : ∀ (es : List Event) (st : List Nat) (n : Nat), (Spec.re
   | .join _ _ :: es, st, n => by simp only [Spec.replay, writtenAtoms]; rw [replay_count es]
 
 /-- … and if it fails with `Join(a, c)` (a ring closure that cannot be made, C10), both atoms have an entry in the
-    trace's atom table, each the exact range of an atom token of the string -/
+    trace's atom table, each the exact range of the token of the `a`-th / `c`-th atom the reader reported (in string order,
+    `trace_atoms_in_string_order`) -/
 theorem join_error_points_at_its_atoms (s : Str) (t : TState) (ht : trace? s = some t) (a c : Nat)
     (hb : build? (read s).1 = some (.error (.join a c))) :
     ∃ a1 a2 c1 c2, t.atom a = some (a1, a2) ∧ t.atom c = some (c1, c2) ∧
       a1 < a2 ∧ a2 ≤ s.length ∧ c1 < c2 ∧ c2 ≤ s.length ∧
-      (∃ k, readAtom (s.drop a1) = .ok k (s.drop a2)) ∧ (∃ k, readAtom (s.drop c1) = .ok k (s.drop c2)) := by
+      (∃ isRoot k, (writtenAtoms (read s).1)[a]? = some (isRoot, k) ∧ readAtom (s.drop a1) = .ok k (s.drop a2)) ∧
+      (∃ isRoot k, (writtenAtoms (read s).1)[c]? = some (isRoot, k) ∧ readAtom (s.drop c1) = .ok k (s.drop c2)) := by
   obtain ⟨pre, bk, r, post, s1, hsplit, hpre, herr, hdef⟩ := C10.build_join_error_is_real _ a c hb
   have hinv : DInv pre s1 := by simpa using DInv.run pre DInv.init hpre herr
   obtain ⟨hhead, _, tnode, _, hg, _, _⟩ := hdef
@@ -266,9 +306,11 @@ theorem join_error_points_at_its_atoms (s : Str) (t : TState) (ht : trace? s = s
     exact ⟨t.atoms[c]'(by omega), List.getElem?_eq_getElem (by omega)⟩
   obtain ⟨⟨a1, a2⟩, hpa⟩ := hsa
   obtain ⟨⟨c1, c2⟩, hpc⟩ := hsc
-  obtain ⟨h1, h2, h3⟩ := trace_atom_is_token s t ht a a1 a2 hpa
-  obtain ⟨h4, h5, h6⟩ := trace_atom_is_token s t ht c c1 c2 hpc
-  exact ⟨a1, a2, c1, c2, hpa, hpc, h1, h2, h4, h5, h3, h6⟩
+  obtain ⟨h1, h2, _⟩ := trace_atom_is_token s t ht a a1 a2 hpa
+  obtain ⟨h4, h5, _⟩ := trace_atom_is_token s t ht c c1 c2 hpc
+  obtain ⟨ra, ka, h3, h3', _⟩ := trace_atom_is_its_token s t ht a a1 a2 hpa
+  obtain ⟨rc, kc, h6, h6', _⟩ := trace_atom_is_its_token s t ht c c1 c2 hpc
+  exact ⟨a1, a2, c1, c2, hpa, hpc, h1, h2, h4, h5, ⟨ra, ka, h3, h3'⟩, ⟨rc, kc, h6, h6'⟩⟩
 
 /-! non-vacuity of the two theorems above: the text the writer gives for `C1` (an unmatched digit) and for `C11` (a
     self-bond) is accepted, traced, and fails to build with `Rnum(0)` and `Join(0, 0)` -/
